@@ -21,6 +21,13 @@ def run(ctx):
     RR.priorities(ctx, "R12.e", "R12.e", match_before_rating=False)
     RR.directions(ctx, "R12.e", comps, roles=("rating",))
     RC20.buffer_rules(ctx, None, None, "R20.f")
+    RR.rating_confinement(ctx, "R12.e", parts=("width",))
+    # "hits with no highlighting" are the stored titles: every return of the title builder passes the NUL sanitiser
+    from . import r_highlight as RH
+    RH.analyse_builder(ctx, "R12.g", None, None)
+    # a separator-only query stays without words after normalisation: table keys / targets are letters or marks
+    from . import r_lang as RL
+    RL.table_rules(ctx, None, None, None, None, None, rule_m="R12.h")
     return info("R12.a: the empty-query selection orders by exactly (rating desc, normalised title asc); R12.b: bounded by "
                 "self.limit with the R06.a selection rules; R12.c: the non-index branch is taken iff the query has no word, an "
                 "empty query passes the filter first, positions map to records; R12.d: the memoised ranking is coherent (R10.a/b); "
